@@ -3,7 +3,8 @@
 E1 over a finite deterministic configuration set (the quantifier is finite):
 n x cycle x medium x domain (frequency / Laplace) x smoothing counts,
 stand-alone multigrid on uniform grids.  Oracle: calibrated rate bounds
-(h-independence relative to 16^3; absolute caps = pinned value x 1.5 from the
+(h-independence: rate(n) <= 2.5 rate(16^3) + 0.05; absolute caps = pinned
+value x 1.5 from the
 committed table c06_table.json; cycles to tolerance <= pinned + 3).
 
 This is a measurement against calibrated thresholds - level 'exploration'.
@@ -90,7 +91,7 @@ def case(c):
             viol.append({'cls': 'no-calibration-entry', 'what': what})
             continue
         if min(shape) >= 16 and rho16 is not None and \
-                not r['rho'] <= 1.5*rho16 + 0.02:
+                not r['rho'] <= 2.5*rho16 + 0.05:
             viol.append({'cls': 'convergence-rate-deteriorates-with-size',
                          'what': what + f' vs rho(16^3)={rho16:.3f}'})
         if not r['rho'] <= 1.5*pin['rho'] + 0.01:
